@@ -930,7 +930,7 @@ pub fn run_histories<S: System>(sys: &S, hists: &[Vec<String>], threads: usize) 
                             }
                         }
                         rt::hist_reset();
-                        let mut file = |cx: &mut Cx, cur: &[Step], o: &mut Out| {
+                        let file = |cx: &mut Cx, cur: &[Step], o: &mut Out| {
                             let last = cur.last().map(|s| sys.fmt_step(*s)).unwrap_or_else(|| "new".into());
                             for v in cx.viols.drain(..) {
                                 let sig = format!("{}/{}/{}", sys.name(), op_kind(&last), v.tag);
